@@ -71,17 +71,66 @@ theorem current_monotone {s : St} (hr : Reachable s) (a : Act) (c : Nat) (hc : s
     ∃ c', (step s a).1.store.current = some c' ∧ c ≤ c' :=
   step_current_mono (reachable_inv hr) a c hc
 
+/-- A failed start is retried in the same task, without any delay, whenever the registry still holds enough nodes
+with unexpired heartbeats — including nodes that halted without deregistering. (This is why a job can issue a burst
+of `Deploy` calls to the reachable members of an assembly that contains a dead node: the burst ends when the dead
+node's heartbeat expires. Observed by the C01 cluster as "start attempts failing without an injected fault".) -/
+theorem failed_start_retries_immediately {s : St} (_hr : Reachable s) (h : s.status = .starting) (k : Nat) :
+    (step s (.deployFail k)).1.status =
+      if (purge s).srs.length < s.w || (purge s).ops.length < s.w then Status.paused else Status.starting :=
+  deployFail_status h k
+
 /-! ## nothing of the previous deployment survives a (re)deploy -/
 
 /-- When a deployment succeeds the store has no pending snapshot and no operator of the assembly has an in-flight
-checkpoint record; every operator of the assembly expects barriers from exactly the assembly's source runners. -/
+checkpoint record; every operator of the assembly expects barriers from exactly the assembly's source runners. (The
+report printed by the harness after each deployment is this statement evaluated on the real Job and Operators.) -/
 theorem no_stale_inflight {s : St} (hr : Reachable s) (h : s.status = .starting) :
     (step s .deployOk).1.store.pending = none ∧
     (∀ i ∈ (step s .deployOk).1.asmOps,
       ((step s .deployOk).1.procs i).inflight = none ∧ ((step s .deployOk).1.procs i).deployed = true ∧
       ((step s .deployOk).1.procs i).srcs = (step s .deployOk).1.asmSrs) ∧
-    ∃ st, (step s .deployOk).2 = .started st s.store.current s.asmSrs false [] :=
-  deployOk_clean (reachable_inv hr) h
+    ∃ st, (step s .deployOk).2 = .started st s.store.current s.asmSrs false []
+      (s.asmOps.filter fun i => !(s.procs i).batch.isEmpty) := by
+  obtain ⟨a, b, c⟩ := deployOk_clean (reachable_inv hr) h
+  exact ⟨a, fun i hi => ⟨(b i hi).1, (b i hi).2.1, (b i hi).2.2.1⟩, c⟩
+
+/-
+"Redeploys every member from the latest completed checkpoint" needs more than the two facts above: no effect of the
+previous deployment may survive in a surviving worker. The full statement
+
+    theorem no_stale_effects (hr : Reachable s) (h : s.status = .starting) :
+        ∀ i ∈ (step s .deployOk).1.asmOps, ((step s .deployOk).1.procs i).batch = []
+
+is FALSE for the code as it is (finding D45, `stale_batch_counterexample`): `HandleDeploy` does not touch the
+operator's event batcher, so keyed events that arrived in the previous deployment and were still queued are handed
+to the handler on the state restored from the checkpoint (and the source replays them as well). What is proved is
+the statement with the exact excluded condition: an operator whose batcher is empty when it is redeployed.
+-/
+
+/-- `HandleDeploy` leaves the event batcher exactly as it was; in particular an operator that had nothing queued (every
+new worker, and a surviving operator whose batch had been flushed) starts the deployment with nothing queued.
+Excluded: a surviving operator with queued events at the moment of the redeploy (D45). -/
+theorem no_stale_effects_partial {s : St} (hr : Reachable s) (h : s.status = .starting) :
+    ∀ i ∈ (step s .deployOk).1.asmOps,
+      ((step s .deployOk).1.procs i).batch = (s.procs i).batch ∧
+      ((s.procs i).batch = [] → ((step s .deployOk).1.procs i).batch = []) := by
+  intro i hi
+  have := ((deployOk_clean (reachable_inv hr) h).2.1 i hi).2.2.2
+  exact ⟨this, fun he => this.trans he⟩
+
+/-- the history of D45: an event of the first deployment is still queued at operator 0 when source runner 3 is
+lost; after the redeploy it is processed together with an event of the new deployment -/
+def staleBatchTrace : List Act :=
+  [.regO 0, .regO 1, .regS 2, .regS 3, .deployOk, .ev 0 2 7, .deregS 3, .regS 4, .deployOk]
+
+theorem stale_batch_counterexample :
+    Reachable (run (init 2 5 0 2) staleBatchTrace).1 ∧
+    (run (init 2 5 0 2) staleBatchTrace).1.status = .running ∧
+    ((run (init 2 5 0 2) staleBatchTrace).1.procs 0).batch = [(7, 1)] ∧
+    ((run (init 2 5 0 2) staleBatchTrace).1.procs 0).epoch = 2 ∧
+    (step (run (init 2 5 0 2) staleBatchTrace).1 (.ev 0 2 8)).2 = .processed [(7, 1), (8, 2)] 2 :=
+  ⟨⟨2, 5, 0, 2, staleBatchTrace, rfl⟩, by decide, by decide, by decide, by decide⟩
 
 /-- a pending snapshot always waits for the members of the job's current assembly -/
 theorem pending_belongs_to_assembly {s : St} (hr : Reachable s) (p : Pending) (hp : s.store.pending = some p) :
